@@ -55,6 +55,63 @@ def errors(cmds):
     return out
 
 
+XTA_SHAPES = {'empty': lambda t: '', 'drop-first': lambda t: ' '.join(crashgen.tokens(t)[1:]), 'drop-last': lambda t: ' '.join(crashgen.tokens(t)[:-1]), 'extra-token': lambda t: t + ' zz', 'double-last': lambda t: t + ' ' + crashgen.tokens(t)[-1],
+              'prefix-op': lambda t: '+ ' + t, 'trailing-op': lambda t: t + ' +', 'unbalanced': lambda t: '( ' + t, 'closing': lambda t: t + ' )', 'unknown-name': lambda t: re.sub(r'\b(g\d|x|c\d+)\b', 'zz9', t, count=1)}
+
+
+def xta_labels(run, thorough):
+    """the same property on the textual format: one fault in one guard / sync / assign / probability section of one edge of a generated
+    accepted .xta text; the document as the builder leaves it must equal the fault-free one outside that section, and every diagnostic
+    must lie on the line of the faulted edge (every edge is rendered on a line of its own)"""
+    rng = run.rng
+    stats = dict(xta_faults=0, xta_isolated=0, xta_inert=0)
+    j = vlib.Job()
+    cases = []
+    for n in range(1200 if thorough else 220):
+        M = docgen.gen(rng, ntempl=rng.choice([1, 2]), allow_anon=False, branchpoints=False, xta_common=True)
+        sites = [(T, ei, k, m) for T in M.templates for ei, e in enumerate(T['edges']) for k, m in e['labels'] if k in ('guard', 'sync', 'update', 'prob')]
+        if not sites:
+            continue
+        base = docgen.render_xta(M)
+        T, ei, k, m = rng.choice(sites)
+        shape = rng.choice(sorted(XTA_SHAPES))
+        good = docgen.ltext(M, k, m)
+        M.text[(k, m)] = XTA_SHAPES[shape](good)
+        bad = docgen.render_xta(M)
+        if bad == base:
+            continue
+        cid = len(cases)
+        cases.append((k, shape, base, bad, good, T['name'], ei))
+        j.case('xb%d' % cid, fork=True).model('xtaraw', base).dump('errors').dump('doc').end()
+        j.case('xf%d' % cid, fork=True).model('xtaraw', bad).dump('errors').dump('doc').end()
+    rr = vlib.run_jobs(j)
+    field = {'guard': 'guard', 'sync': 'sync', 'update': 'assign', 'prob': 'prob'}
+    for cid, (k, shape, base, bad, good, tname, ei) in enumerate(cases):
+        b, f = rr['xb%d' % cid], rr['xf%d' % cid]
+        if f['status'] != 'ok' or b['status'] != 'ok' or len(f['cmds']) < 3 or len(b['cmds']) < 3:
+            if f['status'] != 'ok':
+                run.fail('parser crashed on an .xta text with a faulted %s section (%s)' % (k, f['status']), dict(xta=bad, status=f['status']), shape='crash')
+            continue
+        stats['xta_faults'] += 1
+        errs = [l for l in f['cmds'][1][2] if l.startswith('error')]
+        if not errs and f['cmds'][2][2] == b['cmds'][2][2]:
+            stats['xta_inert'] += 1
+            continue
+        lines = [i + 1 for i, (x, y) in enumerate(zip(base.split('\n'), bad.split('\n'))) if x != y]
+        ln = lines[0] if lines else 0
+        stray = [l for l in errs if not re.search(r' line=%d\.\.%d ' % (ln, ln), l)]
+        mask = lambda l: re.sub(r' %s=.*?(?= (?:sync|assign|prob)=|$)' % field[k], ' %s=<masked>' % field[k], l) if re.match(r't\d+ edge ', l) else l
+        db, df = [mask(l) for l in b['cmds'][2][2]], [mask(l) for l in f['cmds'][2][2]]
+        diff = next(((x, y) for x, y in zip(db + ['<end>'], df + ['<end>']) if x != y), None)
+        if stray:
+            run.fail('.xta text: a %s fault in the %s section of an edge (line %d) is reported elsewhere: %s' % (shape, k, ln, stray[0][:160]), dict(xta=bad, fault_free=base, label=good, stray=stray[:3]), shape='xta-label:%s:stray' % shape)
+        elif diff:
+            run.fail('.xta text: a %s fault in the %s section of an edge changes the document elsewhere: %r became %r' % (shape, k, diff[0][:140], diff[1][:140]), dict(xta=bad, fault_free=base, label=good), shape='xta-label:%s:spill' % shape)
+        else:
+            stats['xta_isolated'] += 1
+    return stats
+
+
 def check(run):
     thorough = run.tier == 'thorough'
     rng = run.rng
@@ -151,6 +208,7 @@ def check(run):
                      dict(xml=x, faulted_label=S['xpath'], text=bad, fault_free=diff[0], faulted=diff[1]),
                      shape='frame-leak' if leakish and ('@tmpl' in diff[1] or '@nested' in diff[1]) else
                            ('stray-fragment:location' if S['what'] == 'rate' and diff[0].startswith(S['line']) else 'spill:' + S['what'] + ':' + re.sub(r'\d+', 'N', diff[0].split('=')[0])[:30]))
+    stats.update(xta_labels(run, thorough))
     bd = rr['dbase']
     base_lines = [l for l in doc_lines(bd['cmds']) if l.startswith('global ')]
     def named(lines, names):
